@@ -87,6 +87,13 @@ def main():
                       "ia"),
         "p0_2_oo": (lambda: itm("p0_2_oo").expand_itmd("ij", True, True),
                     "ij"),
+        "p0_3_oo": (lambda: itm("p0_3_oo").expand_itmd("ij", True, True),
+                    "ij"),
+        "p0_3_vv": (lambda: itm("p0_3_vv").expand_itmd("ab", True, True),
+                    "ab"),
+        "t1_3": (lambda: itm("t1_3").expand_itmd("ia", True, True), "ia"),
+        "t2eri_A": (lambda: itm("t2eri_A").expand_itmd("ijka", True, True),
+                    "ijka"),
         "sym_denoms": (lambda: Expr(itm("t2_2").expand_itmd(
             "ijab", True, True), real=True).expand()
             .use_symbolic_denominators(), "ijab"),
